@@ -7,6 +7,7 @@ The selection dag is splitted into trees by this module.
 import logging
 from .. import ir
 from ..utils.tree import Tree
+from ..utils.collections import OrderedSet
 
 
 class DagSplitter:
@@ -46,7 +47,7 @@ class DagSplitter:
     def split_group_into_trees(self, sgraph, function_info, group):
         nodes = sgraph.get_group(group)
         # Get rid of ENTRY and EXIT:
-        nodes = set(
+        nodes = OrderedSet(
             filter(lambda x: x.name.op not in ["ENTRY", "EXIT"], nodes)
         )
 
@@ -149,7 +150,7 @@ class DagSplitter:
 
 def topological_sort_modified(nodes, start):
     """Modified topological sort, start at the end and work back"""
-    unmarked = set(nodes)
+    unmarked = OrderedSet(nodes)
     marked = set()
     temp_marked = set()
     L = []
